@@ -305,6 +305,13 @@ where
         return Err("Secant: Can not inverse finite element difference jacobian".to_owned());
     };
 
+    // An exactly singular jacobian usually keeps a pivot at rounding level, so the LU inverse
+    // "succeeds" with entries of order 1/epsilon: treat it like an exactly singular one
+    let cond_max = <N as ComplexField>::RealField::from_f64(1e-3 / f64::EPSILON).unwrap();
+    if !(jac.norm() * jac_inv.norm() < cond_max) {
+        return Err("Secant: finite element difference jacobian is numerically singular".to_owned());
+    }
+
     let mut shift = -jac_inv * func_eval;
     guess += &shift;
 
